@@ -10,7 +10,7 @@ trap 'git -C /repo worktree remove --force $W >/dev/null 2>&1; rm -rf $W' EXIT
 git -C /repo worktree add -q --detach $W HEAD || { echo "RESULT $D worktree-failed"; exit 2; }
 head -12 $D/demo_test.go > $W/.hdr
 dir=$(grep -oiE 'place in:? +[^ ]+' $W/.hdr | head -1 | awk '{print $NF}' | sed 's#/$##')
-tname=$(grep -oE "\-run '?[A-Za-z0-9_]+" $W/.hdr | head -1 | sed "s/-run '\?//")
+tname=$(grep -oE "\-run '?\^?[A-Za-z0-9_]+" $W/.hdr | head -1 | sed "s/-run '\?\^\?//")
 rm -f $W/.hdr
 [ -n "$dir" ] && [ -n "$tname" ] || { echo "RESULT $D cannot-parse-demo-header dir=$dir test=$tname"; exit 2; }
 cd $W
